@@ -188,7 +188,7 @@ V("c05-tuple-from-dict", A, "C05", "C05.b",
 V("c05-offset-always-zero", A, "C05", "C05.c",
   ("cursor", "slice(offset=self._arrow_table_fetch_index or 0, length=size)", "slice(offset=0, length=size)"))
 V("c05-arraysize-ignored", A, "C05", "C05",
-  ("cursor", "        size = size or self._arraysize", "        size = size or 1"))
+  ("cursor", "        size = self._arraysize if size is None else size", "        size = 1 if size is None else size"))
 V("c05-neutral-fetchone-direct", N, "C05", None,
   ("cursor", """        result = self.fetchmany(1)
         return result[0] if result else None""", """        rows = self.fetchmany(1)
